@@ -47,6 +47,16 @@ def run(ctx):
         shutil.copytree(os.path.join(vlib.REPO, 'pgradd', 'data', lib), os.path.join(alone, lib))
         modes += [('alone-override', {'op': 'load', 'spec': lib, 'env': alone}, None),
                   ('alone-path', {'op': 'load', 'spec': os.path.join(alone, lib, 'library.yaml')}, None)]
+        # the data directory reached through a symbolic link (a 'current -> release-1' layout), as override and as explicit path
+        link = os.path.join(vlib.WORK, 'c14_link')
+        if os.path.islink(link) or os.path.exists(link):
+            os.remove(link)
+        os.symlink(reloc, link)
+        modes += [('symlink-override', {'op': 'load', 'spec': lib, 'env': link}, None),
+                  ('symlink-path', {'op': 'load', 'spec': os.path.join(link, lib, 'library.yaml')}, None)]
+        # loaded a second time by name after the first object was merged into (overwriting) from another shipped library
+        others = [o for o in gen.SHIPPED if o != lib]
+        modes += [('name-after-update', {'op': 'load', 'spec': lib, 'after_update': others[(gen.SHIPPED.index(lib) * 5 + 3) % len(others)]}, None)]
         fps = []
         from concurrent.futures import ThreadPoolExecutor
         with ThreadPoolExecutor(len(modes)) as ex:
